@@ -5,7 +5,7 @@ import math
 from collections import Counter
 from fractions import Fraction as F
 
-from harness.common import Disagreement, StreamResult, area_rows, budget, import_fractopo, line, lines, parse_line, parse_resp, pt, rat, rng_for
+from harness.common import Disagreement, StreamResult, area_rows, budget, import_fractopo, jsonable, line, lines, parse_line, parse_resp, pt, rat, rng_for
 from harness.mapgen import Arrangement, arr_request, to_float_lines, valid_maps
 from harness.streams import c01
 
@@ -150,7 +150,267 @@ def s06_perturbed(ctx):
     return res
 
 
-STREAMS = [s06_insert, s06_perturbed]
+def _exact(fl):
+    return [[(F(x), F(y)) for x, y in l] for l in fl]
+
+
+def _near_vertex_extras(rng, fl, t):
+    """extra two-vertex traces whose end lies close to an INTERIOR vertex of an existing trace (simple_snap territory),
+    or two ends close to one another on the same host segment (sequential insertion)"""
+    hosts = [l for l in fl if len(l) >= 3]
+    out = []
+    if hosts and rng.random() < 0.7:
+        h = rng.choice(hosts)
+        v = h[rng.randrange(1, len(h) - 1)]
+        ang = rng.uniform(0, 2 * math.pi)
+        g = rng.choice([rng.uniform(0.05, 0.9), rng.uniform(1.1, 3.0), 0.0]) * t
+        e = (v[0] + math.cos(ang) * g, v[1] + math.sin(ang) * g)
+        far = (v[0] + math.cos(ang) * 37.0, v[1] + math.sin(ang) * 37.0)
+        out.append([far, e] if rng.random() < 0.5 else [e, far])
+    if fl and rng.random() < 0.5:
+        h = rng.choice(fl)
+        j = rng.randrange(len(h) - 1)
+        (ax, ay), (bx, by) = h[j], h[j + 1]
+        L = math.hypot(bx - ax, by - ay)
+        if L > 0:
+            nx, ny = -(by - ay) / L, (bx - ax) / L
+            u0 = rng.uniform(0.2, 0.8)
+            for du in (0.0, rng.choice([0.5, 3.0, 30.0]) * t / L):
+                u = u0 + du
+                g = rng.uniform(-0.9, 0.9) * t
+                e = (ax + u * (bx - ax) + nx * g, ay + u * (by - ay) + ny * g)
+                far = (e[0] + nx * 29.0 + (bx - ax) / L * rng.uniform(-3, 3), e[1] + ny * 29.0 + (by - ay) / L * rng.uniform(-3, 3))
+                out.append([e, far])
+    return out
+
+
+def _boundary_extras(rng, area, t):
+    """a trace end within the threshold of the area boundary that is also within the threshold of another trace
+    (must NOT be snapped to that trace, on any pass), plus an ordinary underlap elsewhere so that a second pass happens"""
+    from shapely.geometry import Point
+
+    minx, miny, maxx, maxy = area.bounds
+    ring = list(area.exterior.coords)
+    j = rng.randrange(len(ring) - 1)
+    (ax, ay), (bx, by) = ring[j], ring[j + 1]
+    L = math.hypot(bx - ax, by - ay)
+    if L < 1e-9:
+        return []
+    u = rng.uniform(0.3, 0.7)
+    nx, ny = -(by - ay) / L, (bx - ax) / L
+    cx, cy = (minx + maxx) / 2, (miny + maxy) / 2
+    if (cx - ax) * nx + (cy - ay) * ny < 0:
+        nx, ny = -nx, -ny  # inward normal
+    tx, ty = (bx - ax) / L, (by - ay) / L
+    gb = rng.uniform(0.0, 0.8) * t            # distance of the end from the boundary (inside)
+    e = (ax + u * (bx - ax) + nx * gb, ay + u * (by - ay) + ny * gb)
+    if not area.contains(Point(e)) and gb > 0:
+        return []
+    d = rng.uniform(20.0, 40.0)
+    a_tr = [(e[0] + nx * d + tx * 3.0, e[1] + ny * d + ty * 3.0), e]
+    # another trace passing the end at a distance < t (not touching), roughly parallel to the inward normal
+    go = rng.uniform(0.2, 0.8) * t
+    s0 = (e[0] + tx * go - nx * 0.0, e[1] + ty * go - ny * 0.0)
+    b_tr = [(s0[0] + nx * (gb + 5 * t) * -0.0 + nx * 0.0, s0[1]), (s0[0] + nx * d - tx * 7.0, s0[1] + ny * d - ty * 7.0)]
+    b_tr = [s0, (s0[0] + nx * d - tx * 7.0, s0[1] + ny * d - ty * 7.0)] if rng.random() < 0.5 else [(s0[0] - nx * 0.3 * t, s0[1] - ny * 0.3 * t), (s0[0] + nx * d - tx * 7.0, s0[1] + ny * d - ty * 7.0)]
+    return [a_tr, b_tr]
+
+
+def impl_snap_pass(fl, area, t):
+    from shapely.geometry import LineString, MultiPolygon
+
+    from fractopo.branches_and_nodes import snap_traces
+
+    polys = list(area.geoms) if isinstance(area, MultiPolygon) else [area]
+    try:
+        tr, ch = snap_traces([LineString(l) for l in fl], t, areas=polys)
+    except Exception as e:  # noqa: BLE001
+        return {"err": type(e).__name__}
+    return {"traces": [[(F(x), F(y)) for x, y in l.coords] for l in tr], "changed": bool(ch)}
+
+
+def impl_snap_loop(fl, area, t, allowed=10):
+    """run the real branches_and_nodes with a recorder around snap_traces: passes made and the final traces"""
+    import geopandas as gpd
+    from shapely.geometry import LineString
+
+    import fractopo.branches_and_nodes as ban
+
+    rec = []
+    orig = ban.snap_traces
+
+    def recorder(traces, snap_threshold, areas=None, final_allowed_loop=False):
+        out = orig(traces, snap_threshold, areas=areas, final_allowed_loop=final_allowed_loop)
+        rec.append(out)
+        return out
+
+    ban.snap_traces = recorder
+    try:
+        ban.branches_and_nodes(gpd.GeoSeries([LineString(l) for l in fl]), gpd.GeoSeries([area]), t, allowed_loops=allowed, already_clipped=True)
+        err = None
+    except RecursionError:
+        err = "RecursionError"
+    except Exception as e:  # noqa: BLE001
+        err = type(e).__name__
+    finally:
+        ban.snap_traces = orig
+    if err == "RecursionError" or (err is None and rec):
+        return {"err": err, "loops": len(rec) - 1, "traces": [[(F(x), F(y)) for x, y in l.coords] for l in rec[-1][0]] if rec else []}
+    return {"err": err, "loops": len(rec) - 1, "traces": None}
+
+
+def snap_property_oracle(fl, final, area, t):
+    """C06's own words decided on the implementation's snapping result: an end within the threshold of the area boundary
+    is not snapped to traces; an end farther than the threshold from every other trace splits nothing.
+    `final`: traces after the real snapping stage (exact Fractions). Returns a reason or None."""
+    from shapely.geometry import LineString, Point
+
+    if final is None or len(final) != len(fl):
+        return None
+    ls = [LineString(l) for l in fl]
+    for i, l in enumerate(fl):
+        for e in (l[0], l[-1]):
+            ex = (F(e[0]), F(e[1]))
+            pe = Point(e)
+            db = area.boundary.distance(pe)
+            others = [ls[j].distance(pe) for j in range(len(fl)) if j != i]
+            for j in range(len(fl)):
+                if j == i:
+                    continue
+                was = ex in [(F(x), F(y)) for x, y in fl[j]]
+                now = ex in [tuple(p) for p in final[j]]
+                if now and not was:
+                    if db < 0.9 * t:
+                        return f"end {e} of trace {i} is {db:.3g} < snap from the area boundary but was inserted into trace {j}"
+                    if others and min(others) > 1.1 * t:
+                        return f"end {e} of trace {i} is farther than the threshold from every other trace but was inserted into trace {j}"
+    return None
+
+
+def parse_pass(resp):
+    m = parse_resp(resp)
+    if "err" in m:
+        return {"err": m["err"]}, m.get("crisp") == "1", m
+    from harness.common import parse_lines
+
+    d = {"traces": parse_lines(m.get("traces", ""))}
+    if "changed" in m:
+        d["changed"] = m["changed"] == "1"
+    if "loops" in m:
+        d["loops"] = int(m["loops"])
+    return d, m.get("crisp") == "1", m
+
+
+def _snap_cases(ctx, rng, per):
+    cases = []
+    for unit, off, t in [(F(1), F(0), 0.01), (F(1), F(0), 0.1), (F(1, 8), F(1000), 0.001), (F(1), F(10**6), 0.01)]:
+        maps, _ = valid_maps(ctx, rng, per, F(t), unit=unit, off=off, area_kinds=("box", "circle", "concave"), structured=0.4)
+        for traces, area, kind, ar in maps:
+            base = [[(float(x), float(y)) for x, y in l] for l in traces]
+            for side in ("connected", "unconnected", "none"):
+                if side == "none":
+                    fl, moved = [list(l) for l in base], []
+                else:
+                    pr = perturb(traces, ar, rng, t, side)
+                    if pr is None:
+                        continue
+                    fl, moved = pr
+                extras = _near_vertex_extras(rng, fl, t)
+                if rng.random() < 0.5:
+                    extras += _boundary_extras(rng, area, t)
+                fl = fl + extras
+                rng.shuffle(fl)
+                cases.append({"stream": "S06-snappass", "t": t, "side": side, "traces": fl, "area_wkt": area.wkt, "extras": len(extras), "moved": len(moved)})
+    return cases
+
+
+def _compare_snap(ctx, case, resp_pass, resp_loop):
+    """returns (Disagreement or None, tags)"""
+    from shapely import wkt as _wkt
+
+    area = _wkt.loads(case["area_wkt"])
+    fl = [[tuple(p) for p in l] for l in case["traces"]]
+    t = case["t"]
+    tags = []
+    mp, crisp_p, _mp = parse_pass(resp_pass)
+    ml, crisp_l, rl = parse_pass(resp_loop)
+    ip = impl_snap_pass(fl, area, t)
+    if not crisp_p:
+        tags.append("pass_non_crisp")
+    elif _mp.get("ordfree") != "1":
+        tags.append("pass_order_dependent_non_crisp")
+    else:
+        if "err" in mp:
+            tags.append("pass_err")
+        elif mp.get("changed"):
+            tags.append("pass_changed")
+            ex = _exact(fl)
+            if any(len(a) == len(b) and a != b for a, b in zip(ex, mp["traces"])):
+                tags.append("vertex_moved")
+            if any(len(a) != len(b) for a, b in zip(ex, mp["traces"])):
+                tags.append("vertex_inserted")
+        if mp != ip:
+            why = snap_property_oracle(fl, ip.get("traces"), area, t)
+            return Disagreement("S06-snappass", case, jsonable(mp), jsonable(ip), True if why else None,
+                                why or "one pass of snap_traces differs from the exact model (same coordinates expected: snapping only copies existing coordinates)"), tags
+    if not crisp_l or rl.get("ordfree") != "1":
+        tags.append("loop_non_crisp" if not crisp_l else "loop_order_dependent_non_crisp")
+        return None, tags
+    il = impl_snap_loop(fl, area, t)
+    if "err" in ml:
+        if il["err"] != ml["err"]:
+            return Disagreement("S06-snappass", case, jsonable(ml), jsonable(il), None, "snapping loop: model raises, implementation does not (or differently)"), tags
+        tags.append("loop_err_" + ml["err"])
+        return None, tags
+    tags.append(f"loops={ml['loops']}")
+    if rl.get("quiet") == "1":
+        tags.append("quiet")
+    if il["err"] is not None and il["traces"] is None:
+        # extraction failed after the snapping stage for another reason (not the subject here)
+        tags.append("impl_later_error")
+        return None, tags
+    if il["err"] is not None or il["loops"] != ml["loops"] or il["traces"] != ml["traces"]:
+        why = snap_property_oracle(fl, il["traces"], area, t)
+        return Disagreement("S06-snappass", case, jsonable(ml), jsonable(il), True if why else None,
+                            why or "repeat-until-stable snapping stage differs from the exact model (passes made / final traces)"), tags
+    return None, tags
+
+
+def s06_snappass(ctx):
+    import_fractopo()
+    from shapely import wkt as _wkt
+
+    res = StreamResult("S06-snappass", rule="valid maps (Lean oracle) with abutments moved by [-0.9,0.9]t / [1.1,40]t, extra ends placed 0..3t from INTERIOR vertices of other "
+                       "traces and pairs of ends 0.5..30t apart on one host segment; (a) one real snap_traces pass vs Model/SnapLoop.lean coordinate for coordinate, "
+                       "(b) the real repeat-until-stable loop inside branches_and_nodes (recorder around snap_traces) vs the model loop: passes and final traces; "
+                       "compared when the model result is stable under thresholds x (1 +- 1e-6); non-trivial = the pass changes something")
+    rng = rng_for(ctx.seed, "S06s")
+    cases = _snap_cases(ctx, rng, budget(ctx.tier, 10, 200))
+    reqs = []
+    for c in cases:
+        area = _wkt.loads(c["area_wkt"])
+        ex = _exact(c["traces"])
+        reqs.append(f"snappass t={rat(c['t'])} areas={area_rows([area])} traces={lines(ex)}")
+        reqs.append(f"snaploop t={rat(c['t'])} allowed=10 areas={area_rows([area])} traces={lines(ex)}")
+    resps = ctx.driver.parallel(reqs)
+    for i, c in enumerate(cases):
+        d, tags = _compare_snap(ctx, c, resps[2 * i], resps[2 * i + 1])
+        res.evaluations += 1
+        if "pass_changed" in tags:
+            res.nontrivial += 1
+        for tg in tags:
+            if tg.endswith("non_crisp"):
+                res.skipped[tg] = res.skipped.get(tg, 0) + 1
+            else:
+                res.distribution[tg] = res.distribution.get(tg, 0) + 1
+        if d is not None:
+            res.disagreements.append(d)
+    if cases:
+        res.samples = [{"t": cases[0]["t"], "side": cases[0]["side"], "traces": cases[0]["traces"][:3], "model_pass": resps[0][:300]}]
+    return res
+
+
+STREAMS = [s06_insert, s06_snappass, s06_perturbed]
 
 
 def replay(ctx, stream, case):
@@ -165,5 +425,13 @@ def replay(ctx, stream, case):
         model = [(float(x), float(y)) for x, y in parse_line(m["line"])]
         got = [c[:2] for c in insert_point_to_linestring(LineString(pts), Point(p), t).coords]
         return None if got == model else Disagreement(stream, case, model, got, True)
+    if stream == "S06-snappass":
+        from shapely import wkt as _wkt
+
+        area = _wkt.loads(case["area_wkt"])
+        ex = _exact(case["traces"])
+        rs = ctx.driver.batch([f"snappass t={rat(case['t'])} areas={area_rows([area])} traces={lines(ex)}",
+                               f"snaploop t={rat(case['t'])} allowed=10 areas={area_rows([area])} traces={lines(ex)}"])
+        return _compare_snap(ctx, case, rs[0], rs[1])[0]
     r = s06_perturbed(ctx)
     return r.disagreements[0] if r.disagreements else None
